@@ -68,6 +68,11 @@ func c10Cases(tier string) []Case {
 		c10Case("capped-world-then-source", nil, []string{sendAll("USD", "{ @a max %C from @world @b }", "@d")}, nil, "", ""),
 		c10Case("capped-world-then-source", nil, []string{send("%N", "{ max %C from { @world @a } @b }", "@d"), send("%N", "{ @b @a }", "@e")}, nil, "", ""),
 		c10Case("self-posting", nil, []string{send("%N", "@a", "@a"), send("%N", "{ @a @b }", "@d")}, nil, "", ""),
+		c10Case("unknown-account", nil, []string{sendAll("USD", "@p allowing overdraft up to %K", "@d")}, map[string][2]string{"_omit": {"", "p"}}, "", ""),
+		c10Case("unknown-account", nil, []string{sendAll("USD", "{ @a @p allowing overdraft up to %K }", "@d"), send("%N", "@p allowing overdraft up to %K", "@e")}, map[string][2]string{"_omit": {"", "p"}}, "", ""),
+		c10Case("capped-overdraft", nil, []string{send("%N", "{ max %C from @a allowing overdraft up to %K @b }", "@d")}, nil, "", ""),
+		c10Case("capped-overdraft", nil, []string{sendAll("USD", "{ max %C from @a allowing overdraft up to %K @b }", "@d")}, nil, "", ""),
+		c10Case("meta-origin", []string{`account $x = meta(@a, "k")`, `account $y = meta(@a, "j")`}, []string{send("%N", "{ $x $y }", "@d")}, nil, "a.k=b,a.j=c", ""),
 		c10Case("account-variable", nil, []string{send("%N", "{ $s @b }", "@d")}, map[string][2]string{"s": {"account", "acc:a"}}, "", ""),
 		c10Case("two-assets", []string{bal("m", "a", "EUR")}, []string{send("%N", "@a", "@d"), send("$m", "@a", "@e")}, nil, "", ""),
 	)
@@ -92,7 +97,7 @@ func init() {
 		Files: apiFiles, LoadPkgs: apiLoad, InitPkgs: apiInit,
 		Cases: c10Cases,
 		Bounds: stdBounds(
-			map[string]interface{}{"templates": "45 scripts with balance()/overdraft()/meta() origins, saves, account variables, two assets", "stores": "exact, sparse, superset, static, interned (one number object shared by equal entries) over one symbolic truth table (<=4 accounts x <=2 assets + world)", "runs_per_path": 5},
+			map[string]interface{}{"templates": "50 scripts with balance()/overdraft()/meta() origins, saves, account variables, two assets", "stores": "exact, sparse, superset, static, interned (one number object shared by equal entries) over one symbolic truth table (<=4 accounts x <=2 assets + world)", "runs_per_path": 5},
 			map[string]interface{}{"templates": "31 scripts", "stores": "exact, sparse, superset, static, interned", "runs_per_path": 5}),
 		Assumptions: append([]string{"metadata values are concrete per case; balances are symbolic", "stores answering with nil maps are outside (covered for panic-freedom only in C12)"}, apiAssumptions...),
 		Stubs:       append([]string{"harness stores zzStore{exact,sparse,superset,static} implement interpreter.Store"}, apiStubs...),
